@@ -6,6 +6,7 @@ from props import shellcommon as sc
 from sim.scenarios import Pair
 from sim.trace import hdr_fields
 from sim.world import LoopEscape
+from props import hdl
 from vlib import core
 from vlib.core import Failure
 
@@ -219,7 +220,7 @@ def execute_with_forge(ctx, runs):
                 rec.__exit__(None, None, None)
             out.append({'name': name, 'conf': conf, 'seed': seed, 'actions': actions, 'pair': p, 'rec': rec,
                         'escape': None})
-    return out
+    return (out) + hdl.tie(ctx)
 
 
 def oracle(ctx, deep):
@@ -244,7 +245,7 @@ def replay(ctx, obj):
 
 
 CHECK = core.Check(
-    'C03', sc.CLUSTER, 'Props/C03.v', translate=sc.translate, correspond=correspond, oracle=oracle, replay=replay,
+    'C03', sc.CLUSTER, ['Props/C03.v', 'Props/C03H.v'], translate=sc.translate, correspond=correspond, oracle=oracle, replay=replay,
     regressions=regressions, deps=('lib',),
     rule='recorded IkeSa.process_message calls of simulator histories (scripted exchanges + random walks) into which '
          'forgeries are injected; the oracle, after every step and for every IKE_SA that has keys, injects: cleartext '
